@@ -131,3 +131,34 @@ func Derive(kind string, h, h2 *signaling.SessionMsg, self, other *keys.Identity
 	}
 	return m
 }
+
+// Attributed builds a session message whose three attribution inputs are
+// chosen independently: the claimed sender (from_peer_id string), the key that
+// really signs data under the signaling context, and the bytes of the
+// signature's optional pub_key field (nil = absent). It is authentic for a
+// stream identity I exactly if from == I and signer == I; the pub_key field is
+// not authenticated by anything and never changes that.
+func Attributed(from string, signer *keys.Identity, pubKey []byte, data []byte, seqno uint64) *signaling.SessionMsg {
+	sig, err := peer.NewSignature(SignalingContext, signer.Priv, hash.HashType_HashType_BLAKE3, data, false)
+	if err != nil {
+		panic(err)
+	}
+	sig.PubKey = append([]byte(nil), pubKey...)
+	return &signaling.SessionMsg{
+		SignedMsg: &peer.SignedMsg{FromPeerId: from, Signature: sig, Data: append([]byte(nil), data...)},
+		Seqno:     seqno,
+	}
+}
+
+// PubKeyBytes returns the marshalled public key of id as it would appear in a
+// signature's pub_key field.
+func PubKeyBytes(id *keys.Identity) []byte {
+	sig, err := peer.NewSignature(SignalingContext, id.Priv, hash.HashType_HashType_BLAKE3, []byte("pub"), true)
+	if err != nil {
+		panic(err)
+	}
+	if len(sig.PubKey) == 0 {
+		panic("g7sig: NewSignature(inclPubKey) returned no pub_key")
+	}
+	return append([]byte(nil), sig.PubKey...)
+}
